@@ -173,8 +173,10 @@ def plan(ctx: Ctx, prop: str):
               H.INVARIANTS)
     nohash = ("tree_no_checksums", c(Splits=FS({"train"}), MaxSessions=2, MaxWrites=2, Hashing=False), H.INVARIANTS)
     n = (lambda a, b: a if q else b)
+    abort = ("tree_failed_multi_call", c(Splits=FS({"train"}), FillerDirs=ROOT_ONLY, MaxSessions=3, MaxWrites=2, MaxK=2,
+                                         MaxAborts=1), H.INVARIANTS)
     sim_tree = lambda s: (f"sim_tree_{'stream' if s else 'atclose'}",  # noqa: E731
-                          c(MaxSessions=4, MaxWrites=3, MaxK=2, Streaming=s), n(18 if s else 54, 300 if s else 900),
+                          c(MaxSessions=4, MaxWrites=3, MaxK=2, Streaming=s, MaxAborts=1), n(18 if s else 54, 300 if s else 900),
                           45, _targets(ctx, s), 2)
     sim_shard = lambda s, eps: (f"sim_shard_eps{eps}_{'stream' if s else 'atclose'}",  # noqa: E731
                                 c(FillerDirs=FS({(), ("s",)}), MaxK=1, MaxSessions=2, MaxWrites=2 * eps + 2, MDs=MD3,
@@ -184,7 +186,7 @@ def plan(ctx: Ctx, prop: str):
                                          MaxWrites=5, MDs=FS({"None", "A", "B", "REF"}), UseRef=True),
                n(45, 600), 30, _targets(ctx, False) + _targets(ctx, True)[:1], 2)
     if prop in ("C04", "C08", "C03"):
-        mc = [tree3, tree2s] + ([] if q else [nohash, shard23])
+        mc = [tree3, tree2s, abort] + ([] if q else [nohash, shard23])
         sanity = [("merge_without_dedupe", c(Splits=FS({"train"}), MaxSessions=2, MaxWrites=1, Dedupe=False),
                    "NoSessionFails")]
         sims = [sim_tree(False), sim_tree(True)]
